@@ -16,6 +16,14 @@ class XE(Exception):
     pass
 
 
+class FXE(XE):
+    """an exception object that is falsy (as error aggregates with __len__ == 0 are): the library must test
+    `is not None`, never truthiness"""
+
+    def __bool__(self):
+        return False
+
+
 class PManual(Manual):
     """inline completion is a property of the submitted callable (submits are serialised by the gate)"""
 
@@ -89,7 +97,7 @@ def execute(p, chooser):
 
     def exc(e):
         if e not in obs["excs"]:
-            obs["excs"][e] = XE("e%d" % e)
+            obs["excs"][e] = (FXE if e % 3 == 0 else XE)("e%d" % e)
         return obs["excs"][e]
 
     def main():
